@@ -374,7 +374,8 @@ fn make(ctx: &mut Ctx, feats: u64, cfg: Vec<u8>, sched: Vec<(usize, Vec<u8>, boo
     SIM.with(|c| *c.borrow_mut() = Some(Sim { dev: BlkDev::new(a, event_idx), policy: Policy::OnNotify, spins: 0, polls: vec![], notified: 0,
         rng: crate::rng::Rng::new(seed), active: false }));
     st.borrow_mut().on_notify = Some(Box::new(|_q, _s| sim_notify()));
-    Some(Rig { blk: Some(blk), st, a, dev_feats: feats, accepted, indirect, event_idx, last_used: 0, next_id: 1, exp_disk: HashMap::new() })
+    // (the alloc-less build of the crate negotiates RING_INDIRECT_DESC like the default one, but its queue never uses a table)
+    Some(Rig { blk: Some(blk), st, a, dev_feats: feats, accepted, indirect: indirect && crate::scen::qrig::HAVE_INDIRECT, event_idx, last_used: 0, next_id: 1, exp_disk: HashMap::new() })
 }
 
 fn finish(mut rig: Rig, ctx: &mut Ctx, outstanding: usize) {
@@ -413,6 +414,15 @@ fn pick_sector(ctx: &mut Ctx) -> u64 {
 }
 
 /// one blocking call: op 0 read_blocks, 1 write_blocks, 4 flush, 8 device_id
+/// alloc-less build (kind 169, see qrig.rs): RING_INDIRECT_DESC negotiated or not, the driver's queue never shows an INDIRECT
+/// descriptor and never shares a table. ins: [negotiated; buffers per request; head reads INDIRECT; flagged descriptors; table shares]
+fn na_monitor(rig: &Rig, ctx: &mut Ctx, head: Option<u16>, taddr: u64) {
+    if qrig::HAVE_INDIRECT { return; }
+    let flagged = (0..rig.a.size).filter(|i| qrig::read_desc(&rig.a, *i).map(|d| d.2 & 4 != 0).unwrap_or(true)).count();
+    let head_ind = head.and_then(|h| qrig::read_desc(&rig.a, h as usize % rig.a.size.max(1))).map(|d| (d.2 & 4 != 0) as u128).unwrap_or(0);
+    ctx.tr.line(169, &[(rig.accepted & F_IND != 0) as u128, 3, head_ind, flagged as u128, (taddr != 0) as u128], &[1]);
+}
+
 fn blocking(rig: &mut Rig, ctx: &mut Ctx, op: u8, sector: u64, len: usize, policy: Policy, force: Option<u8>) -> bool {
     let did = rig.fresh_id(); let hid = rig.fresh_id(); let rid = rig.fresh_id();
     let mut data: Box<[u8]> = if op == 1 { ctx.rng.bytes(len).into_boxed_slice() } else { vec![0xA5u8; len].into_boxed_slice() };
@@ -450,6 +460,7 @@ fn blocking(rig: &mut Rig, ctx: &mut Ctx, op: u8, sector: u64, len: usize, polic
     let mut outs = vec![class, code, spins as u128];
     outs.extend(enc_bevents(&evs, &ids, token.unwrap_or(0) as u128));
     ctx.tr.line(1403, &ins, &outs);
+    na_monitor(rig, ctx, token, t);
     ctx.tr.note(&format!("blocking_op{}_class{}_st{}", op, class, if seen.is_some() { st.min(4) } else { 9 }));
     ctx.tr.note(match policy { Policy::OnNotify => "policy_on_notify", Policy::Poll(_) => "policy_poll", Policy::Late(_) => "policy_late" });
     let popped = evs.iter().any(|e| matches!(e, Ev::Unshare { .. }));
@@ -541,6 +552,7 @@ fn nb_submit(rig: &mut Rig, ctx: &mut Ctx, slots: &mut Vec<Slot>, write: bool, s
     let head = match &r { Ok(Ok(v)) => *v as u128, _ => 0 };
     outs.extend(enc_bevents(&evs, &ids, head));
     ctx.tr.line(1401, &ins, &outs);
+    na_monitor(rig, ctx, match &r { Ok(Ok(v)) => Some(*v), _ => None }, t);
     ctx.tr.note(match &r { Ok(Ok(_)) => "nb_submit_ok", Ok(Err(_)) => "nb_submit_refused", Err(_) => "nb_submit_panic" });
     // a submission (successful or refused) leaves every outstanding request's buffers alone
     let same = slots.iter().zip(before.iter()).all(|(s, b)| s.snapshot() == *b);
